@@ -1,3 +1,742 @@
-//! C03 harnesses (see /verif/DESIGN.md section 5).
+//! C03 (strict slicing equals the wire formats) and C07 (errors describe the real fault), per layer.
+//!
+//! One body per strict constructor that whole-packet slicing is built from, generic over `MODE`:
+//! `MODE == 3` asserts the C03 clauses (same verdict as the reference, same ranges / field values),
+//! `MODE == 7` asserts the C07 clauses on the error value (layer, offset, len, required_len, length
+//! source, content value). Verdict agreement is asserted in both.
 
-crate::harnesses! {}
+use crate::refm::{self, Lim, RFault, Want, RL};
+use crate::sym::{any, any_le, assume};
+use crate::tight::{inside, off};
+use crate::witness;
+use etherparse::err::{self, Layer, LenError};
+use etherparse::*;
+
+// ------------------------------------------------------------------ error comparison (C07)
+
+pub fn layer_admissible(rl: RL, l: Layer) -> bool {
+    use Layer::*;
+    match rl {
+        RL::Eth => l == Ethernet2Header,
+        RL::Sll => l == LinuxSllHeader,
+        RL::Vlan => l == VlanHeader,
+        RL::Macsec => l == MacsecHeader || l == MacsecPacket,
+        RL::Arp => l == Arp,
+        RL::V4 => l == Ipv4Header || l == Ipv4Packet || l == IpHeader,
+        RL::Auth => l == IpAuthHeader,
+        RL::V6 => l == Ipv6Header || l == Ipv6Packet || l == IpHeader,
+        RL::HopByHop => l == Ipv6ExtHeader || l == Ipv6HopByHopHeader,
+        RL::Route => l == Ipv6ExtHeader || l == Ipv6RouteHeader,
+        RL::DestOpt => l == Ipv6ExtHeader || l == Ipv6DestOptionsHeader,
+        RL::Frag => l == Ipv6ExtHeader || l == Ipv6FragHeader,
+        RL::Udp => l == UdpHeader || l == UdpPayload,
+        RL::Tcp => l == TcpHeader,
+        RL::Icmp4 => l == Icmpv4 || l == Icmpv4Timestamp || l == Icmpv4TimestampReply,
+        RL::Icmp6 => l == Icmpv6,
+    }
+}
+
+pub fn len_source_of(l: Lim) -> LenSource {
+    match l {
+        Lim::Slice => LenSource::Slice,
+        Lim::MacsecSl => LenSource::MacsecShortLength,
+        Lim::V4Total => LenSource::Ipv4HeaderTotalLen,
+        Lim::V6Payload => LenSource::Ipv6HeaderPayloadLen,
+        Lim::UdpLen => LenSource::UdpHeaderLen,
+    }
+}
+
+/// the C07 clauses for a length error against the reference fault record;
+/// `base` = offset of the slice handed to the reference from the start of the caller's buffer
+pub fn check_len_error(e: &LenError, f: &RFault, base: usize) {
+    assert!(f.is_len(), "C07: length error reported where the reference sees a content fault");
+    assert!(layer_admissible(f.layer, e.layer), "C07: error names a layer other than the one that failed");
+    assert!(e.layer_start_offset == base + f.off, "C07: layer_start_offset is not the true offset of the faulting layer");
+    match f.want {
+        Want::Missing(_) => {
+            assert!(e.len == f.avail, "C07: len is not the number of bytes available to the layer");
+            assert!(e.required_len > e.len, "C07: missing data must have required_len > len");
+            assert!(f.legit_demand(e.required_len), "C07: required_len is not a size the layer demands");
+            assert!(
+                e.len_source == LenSource::Slice || e.len_source == len_source_of(f.lim),
+                "C07: length source names a field that did not limit the layer"
+            );
+        }
+        Want::UnderClaim { field, need } => {
+            // the layer's own length field limits it to `field` bytes, fewer than its header
+            assert!(e.len == field, "C07: len is not the length the field allows");
+            assert!(e.required_len == need, "C07: required_len is not the header length");
+            assert!(e.required_len > e.len);
+            let own = match f.layer {
+                RL::V4 => LenSource::Ipv4HeaderTotalLen,
+                RL::Udp => LenSource::UdpHeaderLen,
+                _ => LenSource::Slice,
+            };
+            assert!(e.len_source == own, "C07: length source must be the under-claiming field");
+        }
+        Want::Exact(n) => {
+            assert!(e.len == f.avail, "C07: len is not the number of bytes available to the layer");
+            assert!(e.required_len == n, "C07: required_len is not the exact size demanded");
+            assert!(
+                e.len_source == LenSource::Slice || e.len_source == len_source_of(f.lim),
+                "C07: length source names a field that did not limit the layer"
+            );
+        }
+        Want::TooBig { max } => {
+            assert!(e.len == f.avail);
+            assert!(e.required_len == max && e.required_len < e.len);
+        }
+        _ => {}
+    }
+}
+
+// ------------------------------------------------------------------ link layer
+
+pub fn eth<const MODE: u8>() {
+    let data: [u8; 20] = any();
+    let s = &data[..any_le(20)];
+    let r = refm::eth(s);
+    match Ethernet2Slice::from_slice_without_fcs(s) {
+        Ok(e) => {
+            assert!(r.is_ok(), "C03: accepted although the reference rejects");
+            if MODE == 3 {
+                witness!(e.payload_slice().len() > 0, "3|ok_payload");
+                assert!(e.ether_type().0 == r.unwrap());
+                assert!(off(s, e.header_slice()) == 0 && e.header_slice().len() == 14);
+                assert!(off(s, e.payload_slice()) == 14 && e.payload_slice().len() == s.len() - 14);
+                let p = e.payload();
+                assert!(p.ether_type.0 == r.unwrap() && p.len_source == LenSource::Slice);
+                assert!(off(s, p.payload) == 14 && p.payload.len() == s.len() - 14);
+                assert!(e.destination() == [s[0], s[1], s[2], s[3], s[4], s[5]]);
+                assert!(e.source() == [s[6], s[7], s[8], s[9], s[10], s[11]]);
+                let h = e.to_header();
+                assert!(h.destination == e.destination() && h.source == e.source() && h.ether_type == e.ether_type());
+            }
+        }
+        Err(e) => {
+            assert!(r.is_err(), "C03: rejected although the reference accepts");
+            if MODE == 7 {
+                witness!(true, "7|err");
+                check_len_error(&e, &r.unwrap_err(), 0);
+            }
+        }
+    }
+}
+
+pub fn vlan<const MODE: u8>() {
+    let data: [u8; 12] = any();
+    let s = &data[..any_le(12)];
+    let r = refm::vlan(s, Lim::Slice);
+    match SingleVlanSlice::from_slice(s) {
+        Ok(v) => {
+            assert!(r.is_ok(), "C03: accepted although the reference rejects");
+            if MODE == 3 {
+                witness!(v.payload_slice().len() > 0, "3|ok_payload");
+                assert!(v.ether_type().0 == r.unwrap());
+                assert!(off(s, v.header_slice()) == 0 && v.header_slice().len() == 4);
+                assert!(off(s, v.payload_slice()) == 4 && v.payload_slice().len() == s.len() - 4);
+                let p = v.payload();
+                assert!(p.ether_type.0 == r.unwrap() && p.len_source == LenSource::Slice);
+                assert!(off(s, p.payload) == 4 && p.payload.len() == s.len() - 4);
+                let tci = u16::from_be_bytes([s[0], s[1]]);
+                assert!(v.vlan_identifier().value() == tci & 0xfff);
+                assert!(v.priority_code_point().value() == (tci >> 13) as u8);
+                assert!(v.drop_eligible_indicator() == (tci & 0x1000 != 0));
+            }
+        }
+        Err(e) => {
+            assert!(r.is_err(), "C03: rejected although the reference accepts");
+            if MODE == 7 {
+                witness!(true, "7|err");
+                check_len_error(&e, &r.unwrap_err(), 0);
+            }
+        }
+    }
+}
+
+pub fn macsec<const MODE: u8>() {
+    let data: [u8; 28] = any();
+    let s = &data[..any_le(28)];
+    let r = refm::macsec(s, Lim::Slice, false);
+    match MacsecSlice::from_slice(s) {
+        Ok(m) => {
+            assert!(r.is_ok(), "C03: accepted although the reference rejects");
+            if MODE == 3 {
+                let r = r.unwrap();
+                assert!(off(s, m.header.slice()) == 0 && m.header.slice().len() == r.hlen);
+                assert!(m.header.header_len() == r.hlen);
+                assert!(m.next_ether_type().map(|e| e.0) == r.ether_type);
+                let want_src = if r.lim == Lim::MacsecSl { LenSource::MacsecShortLength } else { LenSource::Slice };
+                match &m.payload {
+                    MacsecPayloadSlice::Unmodified(e) => {
+                        witness!(e.len_source == LenSource::MacsecShortLength && e.payload.len() + r.hlen < s.len(), "3|ok_unmodified_cut");
+                        assert!(Some(e.ether_type.0) == r.ether_type);
+                        assert!(off(s, e.payload) == r.hlen && e.payload.len() == r.payload_len);
+                        assert!(e.len_source == want_src);
+                    }
+                    MacsecPayloadSlice::Modified(p) => {
+                        witness!(p.len() + r.hlen < s.len(), "3|ok_modified_cut");
+                        assert!(r.ether_type.is_none());
+                        assert!(off(s, p) == r.hlen && p.len() == r.payload_len);
+                    }
+                }
+                assert!(m.header.packet_nr() == u32::from_be_bytes([s[2], s[3], s[4], s[5]]));
+                if s[0] & 0x20 != 0 {
+                    assert!(m.header.sci() == Some(u64::from_be_bytes([s[6], s[7], s[8], s[9], s[10], s[11], s[12], s[13]])));
+                } else {
+                    assert!(m.header.sci().is_none());
+                }
+            }
+        }
+        Err(e) => {
+            assert!(r.is_err(), "C03: rejected although the reference accepts");
+            if MODE == 7 {
+                let f = r.unwrap_err();
+                match e {
+                    err::macsec::HeaderSliceError::Len(l) => {
+                        witness!(l.layer == Layer::MacsecPacket, "7|err_short_len");
+                        witness!(l.layer == Layer::MacsecHeader, "7|err_header");
+                        if l.len_source == LenSource::MacsecShortLength {
+                            // KNOWN FINDING (pinned by the repository's own tests, cannot be repaired):
+                            // the short length demanded more than the slice holds; the error reports the
+                            // slice length as `len` but names the short length field as its source although
+                            // that field did not limit the data. Everything else about the error is checked.
+                            witness!(true, "7|KF:c07-macsec-short-len-source");
+                            let mut l2 = l.clone();
+                            l2.len_source = LenSource::Slice;
+                            check_len_error(&l2, &f, 0);
+                        } else {
+                            check_len_error(&l, &f, 0);
+                        }
+                    }
+                    err::macsec::HeaderSliceError::Content(c) => match c {
+                        err::macsec::HeaderError::UnexpectedVersion => assert!(f.want == Want::MacsecVersion),
+                        err::macsec::HeaderError::InvalidUnmodifiedShortLen => assert!(f.want == Want::MacsecShortLenOne),
+                    },
+                }
+            }
+        }
+    }
+}
+
+pub fn sll<const MODE: u8>() {
+    let data: [u8; 20] = any();
+    let s = &data[..any_le(20)];
+    let r = refm::sll(s);
+    match LinuxSllSlice::from_slice(s) {
+        Ok(l) => {
+            assert!(r.is_ok(), "C03: accepted although the reference rejects");
+            if MODE == 3 {
+                witness!(l.payload_slice().len() > 0, "3|ok_payload");
+                assert!(off(s, l.header_slice()) == 0 && l.header_slice().len() == 16);
+                assert!(off(s, l.payload_slice()) == 16 && l.payload_slice().len() == s.len() - 16);
+                assert!(u16::from(l.packet_type()) == u16::from_be_bytes([s[0], s[1]]));
+                assert!(u16::from(l.arp_hardware_type()) == u16::from_be_bytes([s[2], s[3]]));
+                assert!(l.sender_address_valid_length() == u16::from_be_bytes([s[4], s[5]]));
+                assert!(l.sender_address_full() == [s[6], s[7], s[8], s[9], s[10], s[11], s[12], s[13]]);
+                assert!(u16::from(l.protocol_type()) == u16::from_be_bytes([s[14], s[15]]));
+                let is_et = matches!(l.protocol_type(), LinuxSllProtocolType::EtherType(_));
+                match r.unwrap() {
+                    refm::RSllProto::EtherType(et) => {
+                        witness!(true, "3|ok_ether_type");
+                        assert!(l.protocol_type() == LinuxSllProtocolType::EtherType(EtherType(et)));
+                    }
+                    refm::RSllProto::Other => {
+                        witness!(true, "3|ok_other");
+                        assert!(!is_et);
+                    }
+                }
+            }
+        }
+        Err(e) => {
+            assert!(r.is_err(), "C03: rejected although the reference accepts");
+            if MODE == 7 {
+                let f = r.unwrap_err();
+                match e {
+                    err::linux_sll::HeaderSliceError::Len(l) => check_len_error(&l, &f, 0),
+                    err::linux_sll::HeaderSliceError::Content(c) => match c {
+                        err::linux_sll::HeaderError::UnsupportedPacketTypeField { packet_type } => {
+                            witness!(true, "7|err_packet_type");
+                            assert!(f.want == Want::SllPacketType(packet_type));
+                        }
+                        err::linux_sll::HeaderError::UnsupportedArpHardwareId { arp_hardware_type } => {
+                            witness!(true, "7|err_hw_type");
+                            assert!(f.want == Want::SllHwType(u16::from(arp_hardware_type)));
+                        }
+                    },
+                }
+            }
+        }
+    }
+}
+
+pub fn arp<const MODE: u8>() {
+    let data: [u8; 32] = any();
+    let s = &data[..any_le(32)];
+    let r = refm::arp(s, Lim::Slice);
+    match ArpPacketSlice::from_slice(s) {
+        Ok(a) => {
+            assert!(r.is_ok(), "C03: accepted although the reference rejects");
+            if MODE == 3 {
+                witness!(a.hw_addr_size() > 0 && a.proto_addr_size() > 0 && a.slice().len() < s.len(), "3|ok_addrs_trailing");
+                let total = r.unwrap();
+                assert!(off(s, a.slice()) == 0 && a.slice().len() == total);
+                let h = s[4] as usize;
+                let p = s[5] as usize;
+                assert!(u16::from(a.hw_addr_type()) == u16::from_be_bytes([s[0], s[1]]));
+                assert!(a.proto_addr_type().0 == u16::from_be_bytes([s[2], s[3]]));
+                assert!(a.hw_addr_size() as usize == h && a.proto_addr_size() as usize == p);
+                assert!(a.operation().0 == u16::from_be_bytes([s[6], s[7]]));
+                assert!(off(s, a.sender_hw_addr()) == 8 && a.sender_hw_addr().len() == h);
+                assert!(off(s, a.sender_protocol_addr()) == 8 + h && a.sender_protocol_addr().len() == p);
+                assert!(off(s, a.target_hw_addr()) == 8 + h + p && a.target_hw_addr().len() == h);
+                assert!(off(s, a.target_protocol_addr()) == 8 + 2 * h + p && a.target_protocol_addr().len() == p);
+            }
+        }
+        Err(e) => {
+            assert!(r.is_err(), "C03: rejected although the reference accepts");
+            if MODE == 7 {
+                let f = r.unwrap_err();
+                if e.len_source == LenSource::ArpAddrLengths {
+                    // KNOWN FINDING (pinned by the repository's own tests): the address sizes demand more than
+                    // the slice holds; `len` is the slice length but the source names the ARP size fields,
+                    // which did not limit the data.
+                    witness!(true, "7|KF:c07-arp-addr-len-source");
+                    let mut e2 = e.clone();
+                    e2.len_source = LenSource::Slice;
+                    check_len_error(&e2, &f, 0);
+                } else {
+                    witness!(true, "7|err_fixed_part");
+                    check_len_error(&e, &f, 0);
+                }
+            }
+        }
+    }
+}
+
+// ------------------------------------------------------------------ network layer
+
+pub fn check_ipv4_fields(s: &[u8], h: &Ipv4HeaderSlice) {
+    assert!(h.ihl() == s[0] & 0xf);
+    assert!(h.total_len() == u16::from_be_bytes([s[2], s[3]]));
+    assert!(h.identification() == u16::from_be_bytes([s[4], s[5]]));
+    assert!(h.ttl() == s[8]);
+    assert!(h.protocol().0 == s[9]);
+    assert!(h.header_checksum() == u16::from_be_bytes([s[10], s[11]]));
+    assert!(h.source() == [s[12], s[13], s[14], s[15]]);
+    assert!(h.destination() == [s[16], s[17], s[18], s[19]]);
+    let w = u16::from_be_bytes([s[6], s[7]]);
+    assert!(h.dont_fragment() == (w & 0x4000 != 0));
+    assert!(h.more_fragments() == (w & 0x2000 != 0));
+    assert!(h.fragments_offset().value() == w & 0x1fff);
+    assert!(off(s, h.options()) == 20 && h.options().len() == (s[0] & 0xf) as usize * 4 - 20);
+}
+
+pub fn ipv4<const MODE: u8>() {
+    let data: [u8; 44] = any();
+    let s = &data[..any_le(44)];
+    let r = refm::ipv4(s, Lim::Slice, false);
+    match Ipv4Slice::from_slice(s) {
+        Ok(ip) => {
+            assert!(r.is_ok(), "C03: accepted although the reference rejects");
+            if MODE == 3 {
+                let r = r.unwrap();
+                witness!(r.n_exts == 1 && r.payload_len > 0 && r.payload_off + r.payload_len < s.len(), "3|ok_auth_payload_cut");
+                witness!(r.hlen > 20, "3|ok_options");
+                witness!(r.fragmented, "3|ok_fragmented");
+                assert!(off(s, ip.header().slice()) == 0 && ip.header().slice().len() == r.hlen);
+                check_ipv4_fields(s, &ip.header());
+                match ip.extensions().auth {
+                    Some(a) => {
+                        assert!(r.n_exts == 1);
+                        assert!(off(s, a.slice()) == r.hlen && a.slice().len() == r.exts_len);
+                        assert!(a.next_header().0 == r.proto);
+                        assert!(a.spi() == u32::from_be_bytes([s[r.hlen + 4], s[r.hlen + 5], s[r.hlen + 6], s[r.hlen + 7]]));
+                    }
+                    None => assert!(r.n_exts == 0),
+                }
+                let p = ip.payload();
+                assert!(off(s, p.payload) == r.payload_off && p.payload.len() == r.payload_len);
+                assert!(p.ip_number.0 == r.proto);
+                assert!(p.fragmented == r.fragmented);
+                assert!(ip.is_payload_fragmented() == r.fragmented);
+                assert!(p.len_source == LenSource::Ipv4HeaderTotalLen);
+            }
+        }
+        Err(e) => {
+            assert!(r.is_err(), "C03: rejected although the reference accepts");
+            if MODE == 7 {
+                let f = r.unwrap_err();
+                match e {
+                    err::ipv4::SliceError::Len(l) => {
+                        witness!(l.layer == Layer::IpAuthHeader && l.len_source == LenSource::Ipv4HeaderTotalLen, "7|err_auth_cut_by_total_len");
+                        witness!(l.len_source == LenSource::Ipv4HeaderTotalLen && l.layer == Layer::Ipv4Packet, "7|err_total_len_under_claims");
+                        check_len_error(&l, &f, 0);
+                    }
+                    err::ipv4::SliceError::Header(h) => match h {
+                        err::ipv4::HeaderError::UnexpectedVersion { version_number } => {
+                            assert!(f.content_is(Want::V4Version(version_number)));
+                        }
+                        err::ipv4::HeaderError::HeaderLengthSmallerThanHeader { ihl } => {
+                            witness!(true, "7|err_ihl");
+                            assert!(f.content_is(Want::V4Ihl(ihl)));
+                        }
+                    },
+                    err::ipv4::SliceError::Exts(x) => match x {
+                        err::ip_auth::HeaderError::ZeroPayloadLen => assert!(f.want == Want::AuthZeroLen && f.layer == RL::Auth),
+                    },
+                }
+            }
+        }
+    }
+}
+
+pub fn check_ipv6_fields(s: &[u8], h: &Ipv6HeaderSlice) {
+    assert!(h.payload_length() == u16::from_be_bytes([s[4], s[5]]));
+    assert!(h.next_header().0 == s[6]);
+    assert!(h.hop_limit() == s[7]);
+    let w = u32::from_be_bytes([s[0], s[1], s[2], s[3]]);
+    assert!(h.traffic_class() == (w >> 20) as u8);
+    assert!(h.flow_label().value() == w & 0xfffff);
+    let src = h.source();
+    let dst = h.destination();
+    assert!(src[0] == s[8] && src[7] == s[15] && src[15] == s[23]);
+    assert!(dst[0] == s[24] && dst[7] == s[31] && dst[15] == s[39]);
+}
+
+pub fn ipv6_err_matches(e: &err::ipv6::SliceError, f: &RFault) {
+    match e {
+        err::ipv6::SliceError::Len(l) => {
+            witness!(l.layer_start_offset > 40, "7|err_behind_an_extension_header");
+            if f.layer != RL::V6 && f.lim == Lim::Slice && l.len_source == LenSource::Ipv6HeaderPayloadLen {
+                // the payload length field is 0 ("to the end of the slice") yet the extension header error
+                // names it as the limiting length: routed to a finding key, everything else still checked
+                witness!(true, "KF:c07-ipv6-ext-len-source-payload-len-zero");
+                let mut l2 = l.clone();
+                l2.len_source = LenSource::Slice;
+                check_len_error(&l2, f, 0);
+            } else {
+                check_len_error(l, f, 0);
+            }
+        }
+        err::ipv6::SliceError::Header(h) => match h {
+            err::ipv6::HeaderError::UnexpectedVersion { version_number } => {
+                assert!(f.want == Want::V6Version(*version_number));
+            }
+        },
+        err::ipv6::SliceError::Exts(x) => match x {
+            err::ipv6_exts::HeaderError::HopByHopNotAtStart => {
+                witness!(true, "7|err_hop_by_hop_not_first");
+                assert!(f.want == Want::HopByHopNotFirst);
+            }
+            err::ipv6_exts::HeaderError::IpAuth(err::ip_auth::HeaderError::ZeroPayloadLen) => {
+                assert!(f.want == Want::AuthZeroLen && f.layer == RL::Auth);
+            }
+        },
+    }
+}
+
+pub fn ipv6<const MODE: u8, const N: usize>() {
+    let data: [u8; N] = any();
+    let s = &data[..any_le(N)];
+    let r = refm::ipv6(s, Lim::Slice, false);
+    match Ipv6Slice::from_slice(s) {
+        Ok(ip) => {
+            assert!(r.is_ok(), "C03: accepted although the reference rejects");
+            if MODE == 3 {
+                let r = r.unwrap();
+                witness!(r.n_exts >= 1 && r.payload_len > 0, "3|ok_ext_payload");
+                witness!(r.lim == Lim::V6Payload && r.payload_off + r.payload_len < s.len(), "3|ok_cut_by_payload_len");
+                witness!(r.lim == Lim::Slice && r.payload_len > 0, "3|ok_payload_len_zero");
+                witness!(r.fragmented, "3|ok_fragmented");
+                assert!(off(s, ip.header().slice()) == 0 && ip.header().slice().len() == 40);
+                check_ipv6_fields(s, &ip.header());
+                let x = ip.extensions();
+                assert!(x.slice().len() == r.exts_len);
+                if r.exts_len > 0 {
+                    assert!(off(s, x.slice()) == 40);
+                    assert!(x.first_header() == Some(IpNumber(s[6])));
+                } else {
+                    assert!(x.first_header().is_none());
+                }
+                assert!(x.is_fragmenting_payload() == r.fragmented);
+                let p = ip.payload();
+                assert!(off(s, p.payload) == r.payload_off && p.payload.len() == r.payload_len);
+                assert!(p.ip_number.0 == r.proto);
+                assert!(p.fragmented == r.fragmented);
+                assert!(p.len_source == len_source_of(r.lim));
+            }
+        }
+        Err(e) => {
+            assert!(r.is_err(), "C03: rejected although the reference accepts");
+            if MODE == 7 {
+                ipv6_err_matches(&e, &r.unwrap_err());
+            }
+        }
+    }
+}
+
+/// the headers yielded by the extension iterator tile the chain in reference order
+pub fn ipv6_ext_iter<const N: usize>() {
+    let data: [u8; N] = any();
+    let s = &data[..any_le(N)];
+    let first: u8 = any();
+    let (len, n, proto, fragmented, fault) = refm::ipv6_exts(s, first, Lim::Slice);
+    match Ipv6ExtensionsSlice::from_slice(IpNumber(first), s) {
+        Ok((x, next, rest)) => {
+            assert!(fault.is_none(), "C03: accepted although the reference rejects");
+            witness!(n >= 2, "ok_two_headers");
+            assert!(x.slice().len() == len && rest.len() == s.len() - len && next.0 == proto);
+            assert!(x.is_fragmenting_payload() == fragmented);
+            let mut pos = 0usize;
+            let mut cnt = 0usize;
+            let mut kind = first;
+            let mut it = x.clone().into_iter();
+            while let Some(h) = it.next() {
+                let (sl, nx) = match h {
+                    Ipv6ExtensionSlice::HopByHop(r) => {
+                        assert!(kind == refm::P_HOPOPT);
+                        (r.slice(), r.next_header())
+                    }
+                    Ipv6ExtensionSlice::Routing(r) => {
+                        assert!(kind == refm::P_ROUTE);
+                        (r.slice(), r.next_header())
+                    }
+                    Ipv6ExtensionSlice::DestinationOptions(r) => {
+                        assert!(kind == refm::P_DSTOPT);
+                        (r.slice(), r.next_header())
+                    }
+                    Ipv6ExtensionSlice::Fragment(f) => {
+                        assert!(kind == refm::P_FRAG);
+                        (f.slice(), f.next_header())
+                    }
+                    Ipv6ExtensionSlice::Authentication(a) => {
+                        assert!(kind == refm::P_AUTH);
+                        (a.slice(), a.next_header())
+                    }
+                };
+                assert!(off(s, sl) == pos, "C03: extension headers do not tile the chain");
+                assert!(nx.0 == s[pos]);
+                pos += sl.len();
+                kind = nx.0;
+                cnt += 1;
+            }
+            assert!(pos == len && cnt == n && kind == proto);
+        }
+        Err(_) => {
+            assert!(fault.is_some(), "C03: rejected although the reference accepts");
+        }
+    }
+}
+
+/// version dispatching decoder against the reference dispatch
+pub fn ip_dispatch<const MODE: u8>() {
+    let data: [u8; 44] = any();
+    let s = &data[..any_le(44)];
+    // keep the IPv6 extension walk out of this harness (decided by c03_ipv6_*)
+    if s.len() > 6 && s[0] >> 4 == 6 {
+        assume(!matches!(s[6], refm::P_HOPOPT | refm::P_ROUTE | refm::P_FRAG | refm::P_AUTH | refm::P_DSTOPT));
+    }
+    let r = refm::ip(s, Lim::Slice, false);
+    match IpSlice::from_slice(s) {
+        Ok(ip) => {
+            assert!(r.is_ok(), "C03: accepted although the reference rejects");
+            if MODE == 3 {
+                let r = r.unwrap();
+                witness!(r.v6, "3|ok_v6");
+                witness!(!r.v6, "3|ok_v4");
+                assert!(ip.ipv6().is_some() == r.v6 && ip.ipv4().is_some() == !r.v6);
+                let p = ip.payload();
+                assert!(off(s, p.payload) == r.payload_off && p.payload.len() == r.payload_len);
+                assert!(p.ip_number.0 == r.proto && p.fragmented == r.fragmented && p.len_source == len_source_of(r.lim));
+            }
+        }
+        Err(e) => {
+            assert!(r.is_err(), "C03: rejected although the reference accepts");
+            if MODE == 7 {
+                let f = r.unwrap_err();
+                match e {
+                    err::ip::SliceError::Len(l) => check_len_error(&l, &f, 0),
+                    err::ip::SliceError::IpHeaders(h) => match h {
+                        err::ip::HeadersError::Ip(err::ip::HeaderError::UnsupportedIpVersion { version_number }) => {
+                            witness!(true, "7|err_version");
+                            assert!(f.want == Want::IpVersion(version_number));
+                        }
+                        err::ip::HeadersError::Ip(err::ip::HeaderError::Ipv4HeaderLengthSmallerThanHeader { ihl }) => {
+                            assert!(f.content_is(Want::V4Ihl(ihl)));
+                        }
+                        err::ip::HeadersError::Ipv4Ext(err::ip_auth::HeaderError::ZeroPayloadLen) => {
+                            assert!(f.want == Want::AuthZeroLen);
+                        }
+                        err::ip::HeadersError::Ipv6Ext(_) => {
+                            assert!(false, "C07: extension error although no extension header is present");
+                        }
+                    },
+                }
+            }
+        }
+    }
+}
+
+// ------------------------------------------------------------------ transport layer
+
+pub fn udp<const MODE: u8>() {
+    let data: [u8; 16] = any();
+    let s = &data[..any_le(16)];
+    let r = refm::udp(s, Lim::Slice, false);
+    match UdpSlice::from_slice(s) {
+        Ok(u) => {
+            assert!(r.is_ok(), "C03: accepted although the reference rejects");
+            if MODE == 3 {
+                let r = r.unwrap();
+                witness!(r.len < s.len() && r.len > 8, "3|ok_cut_by_length");
+                witness!(r.lim == Lim::Slice && r.len > 8, "3|ok_length_zero");
+                assert!(off(s, u.slice()) == 0 && u.slice().len() == r.len);
+                assert!(off(s, u.header_slice()) == 0 && u.header_slice().len() == 8);
+                assert!(off(s, u.payload()) == 8 && u.payload().len() == r.len - 8);
+                assert!(u.source_port() == u16::from_be_bytes([s[0], s[1]]));
+                assert!(u.destination_port() == u16::from_be_bytes([s[2], s[3]]));
+                assert!(u.length() == u16::from_be_bytes([s[4], s[5]]));
+                assert!(u.checksum() == u16::from_be_bytes([s[6], s[7]]));
+                assert!(u.payload_len_source() == len_source_of(r.lim));
+            }
+        }
+        Err(e) => {
+            assert!(r.is_err(), "C03: rejected although the reference accepts");
+            if MODE == 7 {
+                witness!(e.len_source == LenSource::UdpHeaderLen, "7|err_length_under_claims");
+                witness!(e.layer == Layer::UdpPayload, "7|err_length_over_claims");
+                check_len_error(&e, &r.unwrap_err(), 0);
+            }
+        }
+    }
+}
+
+pub fn tcp<const MODE: u8>() {
+    let data: [u8; 64] = any();
+    let s = &data[..any_le(64)];
+    let r = refm::tcp(s, Lim::Slice);
+    match TcpSlice::from_slice(s) {
+        Ok(t) => {
+            assert!(r.is_ok(), "C03: accepted although the reference rejects");
+            if MODE == 3 {
+                let r = r.unwrap();
+                witness!(r.hlen == 60 && s.len() > 60, "3|ok_max_options_payload");
+                assert!(off(s, t.slice()) == 0 && t.slice().len() == s.len());
+                assert!(off(s, t.header_slice()) == 0 && t.header_slice().len() == r.hlen);
+                assert!(off(s, t.payload()) == r.hlen && t.payload().len() == s.len() - r.hlen);
+                assert!(off(s, t.options()) == 20 && t.options().len() == r.hlen - 20);
+                assert!(t.source_port() == u16::from_be_bytes([s[0], s[1]]));
+                assert!(t.destination_port() == u16::from_be_bytes([s[2], s[3]]));
+                assert!(t.sequence_number() == u32::from_be_bytes([s[4], s[5], s[6], s[7]]));
+                assert!(t.acknowledgment_number() == u32::from_be_bytes([s[8], s[9], s[10], s[11]]));
+                assert!(t.data_offset() == s[12] >> 4);
+                assert!(t.ns() == (s[12] & 1 != 0));
+                assert!(t.cwr() == (s[13] & 0x80 != 0) && t.ece() == (s[13] & 0x40 != 0) && t.urg() == (s[13] & 0x20 != 0));
+                assert!(t.ack() == (s[13] & 0x10 != 0) && t.psh() == (s[13] & 0x08 != 0) && t.rst() == (s[13] & 0x04 != 0));
+                assert!(t.syn() == (s[13] & 0x02 != 0) && t.fin() == (s[13] & 0x01 != 0));
+                assert!(t.window_size() == u16::from_be_bytes([s[14], s[15]]));
+                assert!(t.checksum() == u16::from_be_bytes([s[16], s[17]]));
+                assert!(t.urgent_pointer() == u16::from_be_bytes([s[18], s[19]]));
+            }
+        }
+        Err(e) => {
+            assert!(r.is_err(), "C03: rejected although the reference accepts");
+            if MODE == 7 {
+                let f = r.unwrap_err();
+                match e {
+                    err::tcp::HeaderSliceError::Len(l) => {
+                        witness!(l.required_len > 20, "7|err_options_cut");
+                        check_len_error(&l, &f, 0);
+                    }
+                    err::tcp::HeaderSliceError::Content(err::tcp::HeaderError::DataOffsetTooSmall { data_offset }) => {
+                        witness!(true, "7|err_data_offset");
+                        assert!(f.want == Want::TcpDataOffset(data_offset));
+                    }
+                }
+            }
+        }
+    }
+}
+
+pub fn icmp<const MODE: u8>() {
+    let data: [u8; 24] = any();
+    let s = &data[..any_le(24)];
+    let v6: bool = any();
+    if v6 {
+        let r = refm::icmp6(s, Lim::Slice);
+        match Icmpv6Slice::from_slice(s) {
+            Ok(i) => {
+                assert!(r.is_ok(), "C03: accepted although the reference rejects");
+                if MODE == 3 {
+                    witness!(true, "3|ok_v6");
+                    assert!(off(s, i.slice()) == 0 && i.slice().len() == s.len());
+                    assert!(off(s, i.payload()) == 8 && i.payload().len() == s.len() - 8);
+                    assert!(i.type_u8() == s[0] && i.code_u8() == s[1]);
+                    assert!(i.checksum() == u16::from_be_bytes([s[2], s[3]]));
+                    assert!(i.bytes5to8() == [s[4], s[5], s[6], s[7]]);
+                }
+            }
+            Err(e) => {
+                assert!(r.is_err(), "C03: rejected although the reference accepts");
+                if MODE == 7 {
+                    check_len_error(&e, &r.unwrap_err(), 0);
+                }
+            }
+        }
+    } else {
+        let r = refm::icmp4(s, Lim::Slice);
+        match Icmpv4Slice::from_slice(s) {
+            Ok(i) => {
+                assert!(r.is_ok(), "C03: accepted although the reference rejects");
+                if MODE == 3 {
+                    let r = r.unwrap();
+                    witness!(r.hlen == 20, "3|ok_timestamp");
+                    assert!(off(s, i.slice()) == 0 && i.slice().len() == s.len());
+                    assert!(i.header_len() == r.hlen);
+                    assert!(off(s, i.payload()) == r.hlen && i.payload().len() == s.len() - r.hlen);
+                    assert!(i.type_u8() == s[0] && i.code_u8() == s[1]);
+                    assert!(i.checksum() == u16::from_be_bytes([s[2], s[3]]));
+                    assert!(i.bytes5to8() == [s[4], s[5], s[6], s[7]]);
+                }
+            }
+            Err(e) => {
+                assert!(r.is_err(), "C03: rejected although the reference accepts");
+                if MODE == 7 {
+                    witness!(e.required_len == 20 && e.len > 20, "7|err_timestamp_too_long");
+                    witness!(e.required_len == 20 && e.len < 20, "7|err_timestamp_too_short");
+                    check_len_error(&e, &r.unwrap_err(), 0);
+                }
+            }
+        }
+    }
+}
+
+crate::harnesses! {
+    c03_eth = eth::<3>; unwind 9,
+    c03_vlan = vlan::<3>; unwind 4,
+    c03_macsec = macsec::<3>; unwind 4,
+    c03_sll = sll::<3>; unwind 10,
+    c03_arp = arp::<3>; unwind 4,
+    c03_ipv4 = ipv4::<3>; unwind 6,
+    c03_ipv6_56 = ipv6::<3, 56>; unwind 4,
+    c03_ipv6_64 = ipv6::<3, 64>; unwind 5,
+    c03_ipv6_ext_iter_16 = ipv6_ext_iter::<16>; unwind 4,
+    c03_ipv6_ext_iter_24 = ipv6_ext_iter::<24>; unwind 5,
+    c03_ip_dispatch = ip_dispatch::<3>; unwind 4,
+    c03_udp = udp::<3>; unwind 4,
+    c03_tcp = tcp::<3>; unwind 4,
+    c03_icmp = icmp::<3>; unwind 6,
+    c07_eth = eth::<7>; unwind 4,
+    c07_vlan = vlan::<7>; unwind 4,
+    c07_macsec = macsec::<7>; unwind 4,
+    c07_sll = sll::<7>; unwind 4,
+    c07_arp = arp::<7>; unwind 4,
+    c07_ipv4 = ipv4::<7>; unwind 4,
+    c07_ipv6_56 = ipv6::<7, 56>; unwind 4,
+    c07_ipv6_64 = ipv6::<7, 64>; unwind 5,
+    c07_ip_dispatch = ip_dispatch::<7>; unwind 4,
+    c07_udp = udp::<7>; unwind 4,
+    c07_tcp = tcp::<7>; unwind 4,
+    c07_icmp = icmp::<7>; unwind 4,
+}
